@@ -747,7 +747,10 @@ class Exec:
                 if r[0] == "enter":
                     bi = 0; continue
                 if r[0] == "diverge":
-                    return ("panic", r[1][1])
+                    nm = r[1][1]
+                    if nm.startswith("core::panicking::") or nm.startswith("core::rt::") or "begin_panic" in nm or "panic_fmt" in nm:
+                        nm = "panic"
+                    return ("panic", nm)
             if k == "switch":
                 d = self.operand(st, fr, t["d"])
                 d = self.deref_value(st, d)
